@@ -270,6 +270,8 @@ def st_AnnAssign(ex, st, s, cx):
         return [('normal', st, None)]
     ty = ex.ann_type(s.annotation)
     if isinstance(s.target, ast.Name) and ty is not None and declared_local(ex, cx, s.target.id) is None:
+        if T.is_reflike(ty):
+            ty = T.opt(ty)      # a Python annotation `x: C` does not exclude None
         cx.local_types = dict(cx.local_types)
         cx.local_types[s.target.id] = ty
     fake = ast.Assign(targets=[s.target], value=s.value)
